@@ -41,6 +41,9 @@ def main():
                     models=len(list(b.reg.models)), nested=nested)
                 text = pl.render(b.reg, dict(opts, nested=nested), preamble=req.get("preamble"))
                 resp = {"ok": True, "text": text, "stats": stats}
+            elif op == "render_model":
+                b = pl.build(req["samples"], req["opts"])
+                resp = {"ok": True, "text": pl.render_single_model(b.reg, req["opts"], req["index"])}
             elif op == "ping":
                 resp = {"ok": True, "hashseed": __import__("os").environ.get("PYTHONHASHSEED"), "hash": hash("j2m")}
             else:
